@@ -55,7 +55,9 @@ def attributes_for(rule_name, rng, optional_p=0.3):
 
 
 class Gen:
-    def __init__(self):
+    def __init__(self, exclude=()):
+        """exclude: element names the generator must never emit (e.g. 'references' for expansion workloads)."""
+        self.exclude = set(exclude)
         self.known = dict(mrule.node_mappings)
         self.cost = {e: INF for e in self.known}
         self._best = {}
@@ -76,6 +78,8 @@ class Gen:
             sc = self._sym_cost()
             per_rule = {}
             for e, r in self.known.items():
+                if e in self.exclude:
+                    continue
                 if e == "metadata":
                     c = 1.0
                 else:
@@ -292,6 +296,15 @@ def mutate(root, rng, gen, kind=None):
         n.add_child(Node(c, content=rng.choice([None, "x"])), rng.randint(0, len(n.children)))
         return f"known child {c} under {n.name}"
     return None
+
+
+def uniquify_ids(root, prefix="id"):
+    """Makes the values of 'id' attributes pairwise distinct (precondition of reference expansion)."""
+    k = 0
+    for n in all_nodes(root):
+        if "id" in n.attributes:
+            k += 1
+            n.add_attribute("id", f"{prefix}-{k}")
 
 
 # ---- corpus ---------------------------------------------------------------------------------
